@@ -271,6 +271,16 @@ func nullableOf(m *model, cols []string) []bool {
 	return out
 }
 
+// payload draws the condition column v and the nullable payload n (NULL in about half of the rows:
+// whatever column a model starts with, some joined rows have a NULL in it).
+func payload(r *core.Rand, rw *row) {
+	rw.vals["v"] = int64(r.Intn(4))
+	rw.vals["n"] = nil
+	if r.Bool() {
+		rw.vals["n"] = int64(r.Intn(3))
+	}
+}
+
 func genDataset(r *core.Rand, w *world, p profile) *dataset {
 	ds := &dataset{w: w, p: p, rows: map[*model][]*row{}}
 	nk := len(w.kinds)
@@ -289,7 +299,7 @@ func genDataset(r *core.Rand, w *world, p profile) *dataset {
 	for _, k := range nodeKeys {
 		rw := &row{u: next(), vals: map[string]val{}, deleted: r.Chance(1, 6)}
 		rw.vals["u"] = rw.u
-		rw.vals["v"] = int64(r.Intn(4))
+		payload(r, rw)
 		set(rw, keyCols, k)
 		set(rw, bossCols, genFK(r, w.kinds, nodeKeys, nullableOf(w.node, bossCols), p))
 		ds.rows[w.node] = append(ds.rows[w.node], rw)
@@ -299,7 +309,7 @@ func genDataset(r *core.Rand, w *world, p profile) *dataset {
 	for i, n := 0, r.Range(0, 9); i < n; i++ {
 		rw := &row{u: next(), vals: map[string]val{}, deleted: r.Chance(1, 5)}
 		rw.vals["u"] = rw.u
-		rw.vals["v"] = int64(r.Intn(4))
+		payload(r, rw)
 		set(rw, ownCols, genFK(r, w.kinds, nodeKeys, nullableOf(w.item, ownCols), p))
 		ds.rows[w.item] = append(ds.rows[w.item], rw)
 	}
@@ -318,7 +328,7 @@ func genDataset(r *core.Rand, w *world, p profile) *dataset {
 		}
 		rw := &row{u: next(), vals: map[string]val{}, deleted: deleted}
 		rw.vals["u"] = rw.u
-		rw.vals["v"] = int64(r.Intn(4))
+		payload(r, rw)
 		set(rw, cardCols, fk)
 		ds.rows[w.card] = append(ds.rows[w.card], rw)
 	}
@@ -338,7 +348,7 @@ func genDataset(r *core.Rand, w *world, p profile) *dataset {
 	for _, k := range tagKeys {
 		rw := &row{u: next(), vals: map[string]val{}, deleted: r.Chance(1, 5)}
 		rw.vals["u"] = rw.u
-		rw.vals["v"] = int64(r.Intn(4))
+		payload(r, rw)
 		set(rw, tagCols, k)
 		ds.rows[w.tag] = append(ds.rows[w.tag], rw)
 	}
@@ -367,12 +377,22 @@ func genDataset(r *core.Rand, w *world, p profile) *dataset {
 	}
 	// polymorphic children
 	if w.pic != nil {
-		for i, n := 0, r.Range(0, 6); i < n; i++ {
+		logoOf := map[string]bool{}
+		for i, n := 0, r.Range(0, 7); i < n; i++ {
 			rw := &row{u: next(), vals: map[string]val{}}
 			rw.vals["u"] = rw.u
-			rw.vals["v"] = int64(r.Intn(4))
+			payload(r, rw)
 			rw.vals["owner_id"] = genFK(r, w.kinds, nodeKeys, []bool{false}, p)[0]
-			rw.vals["owner_type"] = core.Pick(r, []string{"node", "node", "node", "tag", "nodes", "Node", ""})
+			ot := core.Pick(r, []string{"node", "node", "node", "logo", "logo", "tag", "nodes", "Node", "Logo", ""})
+			if ot == "logo" {
+				// polymorphic has-one: at most one candidate per owner key (pictures are not soft-deleted)
+				id := renderVal(rw.vals["owner_id"])
+				if logoOf[id] {
+					ot = "node"
+				}
+				logoOf[id] = true
+			}
+			rw.vals["owner_type"] = ot
 			ds.rows[w.pic] = append(ds.rows[w.pic], rw)
 		}
 	}
@@ -455,10 +475,16 @@ func (ds *dataset) live(m *model, r *row) bool { return !(m.soft && r.deleted) }
 
 // expected returns the rows of rel.target that belong to owner row p: foreign key equals the
 // referenced key, live, satisfying c.
-func (ds *dataset) expected(rl *rel, p *row, c *cond) []*row {
+func (ds *dataset) expected(rl *rel, p *row, c *cond) []*row { return ds.join(rl, p, c, false) }
+
+// linked is expected without the soft-delete scope (used only to draw plausible earlier content of
+// a reused destination, never as an oracle).
+func (ds *dataset) linked(rl *rel, p *row) []*row { return ds.join(rl, p, nil, true) }
+
+func (ds *dataset) join(rl *rel, p *row, c *cond, unscoped bool) []*row {
 	var out []*row
 	ok := func(t *row) bool {
-		if !ds.live(rl.target, t) || !c.ok(t) {
+		if !(unscoped || ds.live(rl.target, t)) || !c.ok(t) {
 			return false
 		}
 		if rl.polyCol != "" && t.vals[rl.polyCol] != rl.polyVal {
